@@ -257,6 +257,9 @@ theorem ctxUpd_step {c : CtxId} {f : Ctx → Ctx} {w : World} (h : Inv w) : Step
 theorem setVar_step {c : CtxId} {k : String} {x : Nat} {w : World} (h : Inv w) : Step (some c) w (setVar c k x w) :=
   ctxUpd_step h
 
+theorem setTag_step {c : CtxId} {x : Nat} {w : World} (h : Inv w) : Step (some c) w (setTag c x w) :=
+  ctxUpd_step h
+
 theorem setEntry_step {l : LoaderId} {n : String} {b : Bool} {w : World} (h : Inv w) : Step none w (setEntry l n b w) := by
   unfold setEntry
   split
